@@ -82,6 +82,7 @@ func New() (*World, error) {
 		return nil, err
 	}
 	var deps struct {
+		Sandboxes pipservices.SandboxesManager `dependency:"PipSandboxesManager"`
 		Runner   pipservices.Runner       `dependency:"PipRunner"`
 		Tasks    pipservices.TasksUnit    `dependency:"PipTasksUnit"`
 		Terminal termservices.Terminal    `dependency:"TerminalService"`
@@ -91,6 +92,10 @@ func New() (*World, error) {
 		return nil, err
 	}
 	w.Runner, w.Tasks, w.Terminal, w.Mutex = deps.Runner, deps.Tasks, deps.Terminal, deps.Mutex
+	// a sandbox kind that reports its failure ONLY through the return value of Run (like the ssh and
+	// container sandboxes do for set-up errors): "retfail:<id>" logs begin/end of <id> and fails,
+	// "retok:<id>" succeeds
+	deps.Sandboxes.Add(&retSandboxes{w})
 	w.Root = scope.New(scope.Params{Name: "harness-root"})
 	w.CWD, _ = memfs.NewFilespace()
 	return w, nil
@@ -130,6 +135,32 @@ func (w *World) probe(a app.App, ctx app.IOContext) error {
 		return ErrProbe
 	case "append":
 		ctx.Scope().AppendError(ErrProbe)
+	}
+	return nil
+}
+
+type retSandboxes struct{ w *World }
+
+func (b *retSandboxes) Is(name string) bool {
+	return strings.HasPrefix(name, "retfail:") || strings.HasPrefix(name, "retok:")
+}
+
+func (b *retSandboxes) Build(name string) (pipservices.Sandbox, error) {
+	return &retSandbox{b.w, strings.HasPrefix(name, "retfail:"), name[strings.Index(name, ":")+1:]}, nil
+}
+
+type retSandbox struct {
+	w    *World
+	fail bool
+	id   string
+}
+
+func (s *retSandbox) Run(ctx app.IOContext) error {
+	s.w.Events = append(s.w.Events, Event{s.w.tick(), "begin", s.id, ""})
+	vsched.Point("sandbox-yield")
+	s.w.Events = append(s.w.Events, Event{s.w.tick(), "end", s.id, ""})
+	if s.fail {
+		return ErrProbe
 	}
 	return nil
 }
